@@ -1,42 +1,12 @@
 import SC.Proofs.SpecIndex
+import SC.Proofs.SpecLast
 /-!
 # C08 — LastIndex returns exactly the rightmost case-insensitive match
 -/
 namespace C08
 open Utf8 Spec
 
-/-- `res` is the rightmost-match byte offset of `sub` in `s`, or −1 -/
-def IsLastIndex (s sub : Bytes) (res : Int) : Prop :=
-  (res = -1 ∧ ∀ i, IsBoundary s i → ¬ Match S.fold (s.drop i) sub) ∨
-  (∃ i : Nat, res = (i : Int) ∧ IsBoundary s i ∧ Match S.fold (s.drop i) sub ∧
-      ∀ j, IsBoundary s j → i < j → ¬ Match S.fold (s.drop j) sub)
-
-theorem lastIndex_is_rightmost (s sub : Bytes) : IsLastIndex s sub (S.lastIndex s sub) := by
-  unfold S.lastIndex S.lastIndexK S.fruns
-  cases h : findSubLast (fdec S.fold s) (fdec S.fold sub) with
-  | none =>
-    left
-    refine ⟨rfl, ?_⟩
-    rintro i ⟨k, hk, rfl⟩ hm
-    rw [findSubLast_none_iff] at h
-    apply h k (by rw [fdec_length]; exact hk)
-    unfold Match at hm
-    rwa [fdec_drop_offAt] at hm
-  | some k =>
-    right
-    rw [findSubLast_some_iff] at h
-    obtain ⟨hp, hk, hmax⟩ := h
-    rw [fdec_length] at hk
-    refine ⟨offAt s k, rfl, ⟨k, hk, rfl⟩, ?_, ?_⟩
-    · unfold Match; rwa [fdec_drop_offAt]
-    · rintro j ⟨k', hk', rfl⟩ hlt hm
-      have hkk : k < k' := by
-        rcases Nat.lt_or_ge k k' with h | h
-        · exact h
-        · have := offAt_le_of_le s k' k h hk; omega
-      apply hmax k' hkk (by rw [fdec_length]; exact hk')
-      unfold Match at hm
-      rwa [fdec_drop_offAt] at hm
+theorem lastIndex_is_rightmost (s sub : Bytes) : IsLastIndex S.fold s sub (S.lastIndex s sub) := S_lastIndex_isLastIndex s sub
 
 /-- empty needle: `len(s)` -/
 theorem lastIndex_empty (s : Bytes) : S.lastIndex s [] = s.length := by
